@@ -26,6 +26,10 @@ container.py `Network.pre_timestep`):
   none of them releases its reservation: such a send is `Ev.lost` / `Ev.wlost` (verdict `lost`), with whatever had completed
   inside it.  The exception may be caught further up (the enclosing sends are then ordinary `send`s) or reach the caller of
   the action (every enclosing send is `lost`);
+* the airspace keeps, per hz, the list of interfaces `AirSpace.transmit` walks; `enable()` = flag + `add_wireless_interface`,
+  `disable()` = flag + `remove_wireless_interface`, both also callable on their own, `clear()` empties every list: `Chan.mem`,
+  `Ev.wjoin`, `Ev.wleave`.  None of them touches `bandwidth_load` (Gen: `airLoadWriters`, `airMembershipOps`), also when a list
+  becomes empty.  An access point re-configured onto another frequency is one interface of two channels (off one, on the other);
 * `link.bandwidth` and the capacity of a frequency name are plain attributes a user's script can reassign between two actions
   (`Op.setBw`, `Op.setCap`); no code of the simulator does so after construction (Gen: `capacityWriters`).  Neither looks at or
   touches a load.
@@ -51,6 +55,10 @@ structure Chan where
   caps : List Nat
   load : Nat
   en : List Bool
+  /-- `wireless_interfaces_by_frequency[hz]`: is interface `i` in the list the loop of `AirSpace.transmit` walks?  `enable()` adds
+  (`add_wireless_interface`), `disable()` removes (`remove_wireless_interface`), so normally membership = enabled (the default);
+  both functions are public and can be called on their own, hence a separate flag. -/
+  mem : List Bool := en
 deriving Repr, DecidableEq
 
 /-- The largest capacity any interface of the channel is admitted against (with one name per hz: *the* capacity). -/
@@ -98,6 +106,12 @@ inductive Ev where
   disabled earlier in the same delivery does not hear it and one enabled earlier in the same delivery does); what `j`'s node
   then does are the events that follow in the same list. -/
   | wrecv (c : Nat) (i : Nat) (j : Nat)
+  /-- `AirSpace.add_wireless_interface` took effect for interface `i` of channel `c` (called by `enable()` after the flag is set,
+  or directly).  It touches the interface lists only — **not** `bandwidth_load`. -/
+  | wjoin (c : Nat) (i : Nat)
+  /-- `AirSpace.remove_wireless_interface` (called by `disable()`, by `AirSpace.clear()` for every interface, or directly): the
+  interface leaves the list; the frequency's load stays what it is, also when the list becomes empty. -/
+  | wleave (c : Nat) (i : Nat)
 
 inductive Verdict where
   | nolink     -- no such link / interface (malformed input; the implementation cannot express it)
@@ -268,11 +282,22 @@ def runEv (n : Net) : Ev → Net × List Rec
                      loadBefore := 0, load := 0, bw := 0, capS := 0 }])
     | some ch =>
       let enJ := match ch.en[j]? with | some b => b | none => false
+      let memJ := match ch.mem[j]? with | some b => b | none => false
       let enI := match ch.en[i]? with | some b => b | none => false
+      -- `for wireless_interface in wireless_interfaces_by_frequency[hz]:` (membership)
       -- `if wireless_interface != sender_network_interface and wireless_interface.enabled`
-      let ok := enJ && j != i
+      let ok := memJ && enJ && j != i
       (n, [{ wireless := true, k := c, verdict := hearVerdict ok, enS := enI, enR := ok, rcv := [j], size := 0,
              loadBefore := ch.load, load := ch.load, bw := ch.cap, capS := 0 }])
+
+  | .wjoin c i =>
+    match n.chans[c]? with
+    | none => (n, [])
+    | some ch => ({ n with chans := n.chans.set c { ch with mem := ch.mem.set i true } }, [])
+  | .wleave c i =>
+    match n.chans[c]? with
+    | none => (n, [])
+    | some ch => ({ n with chans := n.chans.set c { ch with mem := ch.mem.set i false } }, [])
 
 def runEvs (n : Net) : List Ev → Net × List Rec
   | [] => (n, [])
